@@ -26,17 +26,28 @@ import (
 
 type Case struct {
 	Project jgen.Project `json:"project"`
-	Class   string       `json:"class"` // pkg.Class of the renamed method
+	Class   string       `json:"class"` // pkg.Class of the renamed method (Class alone in the default package)
 	Old     string       `json:"old"`
 	New     string       `json:"new"`
 	CLI     bool         `json:"cli"`
+	Conf    int          `json:"conf,omitempty"`    // layout of the config text (confText)
+	Args    int          `json:"args,omitempty"`    // spelling of the CLI options (cliArgs)
+	Reverse bool         `json:"reverse,omitempty"` // the model is handed over in reverse order
+	Prior   *Request     `json:"prior,omitempty"`   // a request carried out before, in the same process, on another copy of the project
+}
+
+// Request is a rename request.
+type Request struct {
+	Class string `json:"class"`
+	Old   string `json:"old"`
+	New   string `json:"new"`
 }
 
 var keywords = map[string]bool{"do": true, "if": true, "for": true, "int": true, "new": true, "try": true, "var": true, "byte": true, "case": true,
 	"char": true, "else": true, "enum": true, "goto": true, "long": true, "null": true, "this": true, "true": true, "void": true, "to": true, "with": true, "non": true}
 
 func gen(t *rapid.T) Case {
-	p := jgen.GenProject(t, jgen.Opts{Bodies: true, MultiByte: true, Interfaces: true, MaxUnits: 4, MaxMethods: 4, Wide: true, RichDecl: true, SharedMethodNames: true, WildcardProjectImports: true, SuperCallsDeclared: true, ExoticNames: true})
+	p := jgen.GenProject(t, jgen.Opts{Bodies: true, MultiByte: true, Interfaces: true, MaxUnits: 4, MaxMethods: 4, Wide: true, RichDecl: true, SharedMethodNames: true, WildcardProjectImports: true, SuperCallsDeclared: true, ExoticNames: true, LongLines: true, Anon: true, UnqualifiedForeign: true, Loops: true})
 	// some files use CRLF line ends: columns and lines are unaffected, every other byte must survive
 	for i := range p.Files {
 		if strings.HasSuffix(p.Files[i].Path, ".java") && rapid.IntRange(0, 7).Draw(t, "crlf") == 0 {
@@ -85,19 +96,25 @@ func gen(t *rapid.T) Case {
 			}
 		}
 	}
-	if len(cands) == 0 {
-		return c // nothing to rename; the check will skip
-	}
-	pick := cands
-	if len(withSites) > 0 && rapid.IntRange(0, 5).Draw(t, "preferSites") > 0 {
-		pick = withSites
-		// and among those, methods that are called from another file
-		if len(crossFile) > 0 && rapid.Bool().Draw(t, "preferCrossFile") {
-			pick = crossFile
+	// the subject: a method of the generated project or, one time in four (and whenever the project
+	// has no method to rename), of a unit written by hand (c05_shapes_test.go)
+	synth := rapid.IntRange(0, 3).Draw(t, "synth") == 3 || len(cands) == 0
+	var cd cand
+	if synth {
+		cd.class, cd.name = genSynth(t, &p)
+		c.Project = p
+	} else {
+		pick := cands
+		if len(withSites) > 0 && rapid.IntRange(0, 5).Draw(t, "preferSites") > 0 {
+			pick = withSites
+			// and among those, methods that are called from another file
+			if len(crossFile) > 0 && rapid.Bool().Draw(t, "preferCrossFile") {
+				pick = crossFile
+			}
 		}
+		sort.Slice(pick, func(i, j int) bool { return pick[i].sites > pick[j].sites })
+		cd = pick[rapid.IntRange(0, len(pick)-1).Draw(t, "subject")]
 	}
-	sort.Slice(pick, func(i, j int) bool { return pick[i].sites > pick[j].sites })
-	cd := pick[rapid.IntRange(0, len(pick)-1).Draw(t, "subject")]
 	c.Class, c.Old = cd.class, cd.name
 	// a new name of any length 1..40 (in characters): letters, then 0..3 of its characters replaced by
 	// other identifier characters (`_`, `$`, a digit, letters outside ASCII)
@@ -106,13 +123,28 @@ func gen(t *rapid.T) Case {
 	case 0:
 		nn = rapid.StringMatching(`[a-z]`).Draw(t, "new1")
 	case 1:
-		nn = rapid.StringMatching(`[a-z][a-zA-Z]{`+fmt.Sprint(utf8.RuneCountInString(cd.name)-1)+`}`).Draw(t, "newSameLen")
+		if n := utf8.RuneCountInString(cd.name); n <= 40 {
+			nn = rapid.StringMatching(`[a-z][a-zA-Z]{`+fmt.Sprint(n-1)+`}`).Draw(t, "newSameLen")
+		} else {
+			// as long as a very long old name: a short chunk repeated
+			chunk := rapid.StringMatching(`[a-zA-Z]{1,6}`).Draw(t, "newSameLenChunk")
+			nn = "n" + strings.Repeat(chunk, n/len(chunk)+1)[:n-1]
+		}
 	case 2:
 		nn = rapid.StringMatching(`[a-z][a-zA-Z]{20,39}`).Draw(t, "newLong")
 	default:
 		nn = rapid.StringMatching(`[a-z][a-zA-Z]{0,12}`).Draw(t, "newAny")
 	}
-	if k := rapid.IntRange(0, 5).Draw(t, "newExotic") - 2; k > 0 {
+	// sometimes a name that resembles the old one (an extension, a prefix, a suffix, a case variant) or a
+	// contextual keyword (open, with, to, record, ...)
+	special := rapid.IntRange(0, 7).Draw(t, "newSpecial")
+	switch special {
+	case 6:
+		nn = newNameLike(t, cd.name)
+	case 7:
+		nn = rapid.SampledFrom(contextualWords).Draw(t, "newWord")
+	}
+	if k := rapid.IntRange(0, 5).Draw(t, "newExotic") - 2; k > 0 && special < 6 {
 		rs := []rune(nn)
 		for ; k > 0; k-- {
 			at := rapid.IntRange(0, len(rs)-1).Draw(t, "newExoticAt")
@@ -131,13 +163,14 @@ func gen(t *rapid.T) Case {
 			taken[id] = true
 		}
 	}
-	for taken[nn] || keywords[nn] || jgenKeyword(nn) {
+	for taken[nn] || isKeyword(nn) {
 		nn += "Q"
 	}
 	c.New = nn
+	taken[nn] = true
 	// sometimes clone a calling unit under a class name of the same length: two files then hold
 	// sites at identical (line, column) coordinates
-	if rapid.IntRange(0, 3).Draw(t, "cloneCaller") == 0 {
+	if !synth && rapid.IntRange(0, 3).Draw(t, "cloneCaller") == 0 {
 		target := c.Class + "." + c.Old
 		for i, u := range p.Units {
 			if u.Kind != "Class" || u.FullName() == c.Class {
@@ -180,6 +213,31 @@ func gen(t *rapid.T) Case {
 			c.Project.Units = append(append([]jgen.UnitTruth(nil), c.Project.Units...), nu)
 			break
 		}
+	}
+	// sometimes a class whose name resembles the subject's class
+	if rapid.IntRange(0, 4).Draw(t, "lookalike") == 4 {
+		addLookalike(t, &c)
+	}
+	// the request in the config file: with or without final newline, among blank lines
+	if rapid.IntRange(0, 2).Draw(t, "confForm") == 2 {
+		c.Conf = rapid.IntRange(1, 4).Draw(t, "confLayout")
+	}
+	if c.CLI {
+		c.Args = rapid.IntRange(0, 5).Draw(t, "cliArgs")
+	}
+	c.Reverse = rapid.IntRange(0, 3).Draw(t, "reverseModel") == 3
+	// sometimes another request has been carried out before in the same process, on another copy of the project
+	if !c.CLI && rapid.IntRange(0, 5).Draw(t, "prior") == 5 {
+		pr := Request{Class: c.Class, Old: c.Old}
+		if len(cands) > 0 && rapid.Bool().Draw(t, "priorOther") {
+			o := cands[rapid.IntRange(0, len(cands)-1).Draw(t, "priorSubject")]
+			pr.Class, pr.Old = o.class, o.name
+		}
+		pr.New = rapid.StringMatching(`[a-z][a-zA-Z]{0,12}`).Draw(t, "priorNew")
+		for taken[pr.New] || isKeyword(pr.New) {
+			pr.New += "Q"
+		}
+		c.Prior = &pr
 	}
 	return c
 }
@@ -261,12 +319,30 @@ func check(c Case) pbt.Verdict {
 	}
 	cli.WriteTree(proj, orig)
 	reset()
+	// history: another request carried out before, in this process, on another copy of the project; what
+	// the package keeps from it must not show in the result of the request under test
+	priorDir := filepath.Join(dir, "earlier")
+	var priorFiles map[string]string
+	if c.Prior != nil {
+		cli.WriteTree(priorDir, orig)
+		pm, p := analyse(priorDir)
+		if p != "" {
+			return pbt.Fail("analysis panicked: %s", p)
+		}
+		pc := Case{Class: c.Prior.Class, Old: c.Prior.Old, New: c.Prior.New}
+		if p := pbt.Call(func() { rename.RenameMethodApp(pm).Refactoring(confText(pc)) }); p != "" {
+			return pbt.Fail("the earlier request %s.%s -> %s panicked: %s", pc.Class, pc.Old, pc.New, p)
+		}
+		priorFiles = readTree(priorDir, orig)
+		// (the analysis passes start afresh; the rename package keeps what it keeps)
+		ast_java.VerifResetAstJava()
+		java_identify.VerifResetJavaIdentify()
+	}
 	before, p := analyse(proj)
 	if p != "" {
 		return pbt.Fail("analysis panicked: %s", p)
 	}
-	split := strings.LastIndex(c.Class, ".")
-	pkg, cls := c.Class[:split], c.Class[split+1:]
+	pkg, cls := splitClass(c.Class)
 	// the edits the statement allows: the declaration identifier and every call the model attributes to the method
 	var edits []edit
 	seen := map[edit]bool{}
@@ -280,6 +356,7 @@ func check(c Case) pbt.Verdict {
 		r, _ := filepath.Rel(proj, abs)
 		return filepath.ToSlash(r)
 	}
+	namelessSite, methodRefSite := false, false
 	for _, ds := range before {
 		for _, f := range ds.Functions {
 			if ds.Package == pkg && ds.NodeName == cls && f.Name == c.Old {
@@ -288,6 +365,12 @@ func check(c Case) pbt.Verdict {
 			for _, call := range f.FunctionCalls {
 				if call.Package == pkg && call.NodeName == cls && call.FunctionName == c.Old {
 					add(edit{rel(ds.FilePath), call.Position.StartLine, call.Position.StartLinePosition})
+					if f.Name == "" {
+						namelessSite = true // a call outside every method (field initializer, initializer block)
+					}
+					if call.Type == "lambda" {
+						methodRefSite = true
+					}
 				}
 			}
 		}
@@ -309,7 +392,7 @@ func check(c Case) pbt.Verdict {
 		lines := strings.Split(c.Project.Files[i].Text, "\n")
 		perLine := map[int]int{}
 		for _, f := range u.Funcs {
-			if u.FullName() == c.Class && f.Name == c.Old {
+			if fullName(u) == c.Class && f.Name == c.Old {
 				if !seen[edit{u.Path, f.NameLine, f.NameCol}] {
 					return pbt.Fail("the model does not place the declaration of %s at %s:%d:%d", target, u.Path, f.NameLine, f.NameCol)
 				}
@@ -351,6 +434,7 @@ func check(c Case) pbt.Verdict {
 	for path, text := range orig {
 		expected[path] = text
 	}
+	firstLine, lastLine, farColumn, hugeLine := false, false, false, false
 	byFile := map[string][]edit{}
 	for _, e := range edits {
 		byFile[e.file] = append(byFile[e.file], e)
@@ -361,6 +445,20 @@ func check(c Case) pbt.Verdict {
 			return pbt.Fail("the model names file %q which is not part of the project", file)
 		}
 		lines := strings.Split(text, "\n")
+		for _, e := range es {
+			if e.line == 1 {
+				firstLine = true
+			}
+			if e.line == len(lines) {
+				lastLine = true // the file does not end in a line end and the site stands on its last line
+			}
+			if e.col > 4096 {
+				farColumn = true
+			}
+			if e.line >= 1 && e.line <= len(lines) && len(lines[e.line-1]) > 65536 {
+				hugeLine = true
+			}
+		}
 		sort.Slice(es, func(i, j int) bool {
 			if es[i].line != es[j].line {
 				return es[i].line < es[j].line
@@ -377,28 +475,39 @@ func check(c Case) pbt.Verdict {
 		}
 		expected[file] = strings.Join(lines, "\n")
 	}
-	conf := c.Class + "." + c.Old + " -> " + c.Class + "." + c.New + "\n"
+	conf := confText(c)
+	deps := before
+	if c.Reverse {
+		deps = nil
+		for k := len(before) - 1; k >= 0; k-- {
+			deps = append(deps, before[k])
+		}
+	}
 	how := "RenameMethodApp(deps).Refactoring(conf)"
 	if c.CLI {
-		how = "coca refactor -R conf -d deps.json"
-		raw, _ := json.Marshal(before)
+		args := cliArgs(c, filepath.Join(dir, "rename.config"), filepath.Join(dir, "deps.json"))
+		how = "coca " + strings.ReplaceAll(strings.Join(args, " "), dir+string(filepath.Separator), "")
+		raw, _ := json.Marshal(deps)
 		cli.WriteTree(dir, map[string]string{"deps.json": string(raw), "rename.config": conf})
-		res, err := cli.Run("coca", dir, nil, "refactor", "-R", filepath.Join(dir, "rename.config"), "-d", filepath.Join(dir, "deps.json"))
+		res, err := cli.Run("coca", dir, nil, args...)
 		if err != nil {
 			panic(err)
 		}
 		if res.ExitCode != 0 || res.TimedOut {
 			return pbt.Fail("`%s` exited with %d (timeout=%v)\n%s", how, res.ExitCode, res.TimedOut, res.Stdout+res.Stderr)
 		}
-	} else if p := pbt.Call(func() { rename.RenameMethodApp(before).Refactoring(conf) }); p != "" {
+	} else if p := pbt.Call(func() { rename.RenameMethodApp(deps).Refactoring(conf) }); p != "" {
 		return pbt.Fail("%s panicked: %s", how, p)
 	}
-	var paths []string
-	for path := range orig {
-		paths = append(paths, path)
+	if c.Prior != nil {
+		now := readTree(priorDir, orig)
+		for _, path := range sortedKeys(orig) {
+			if now[path] != priorFiles[path] {
+				return pbt.Fail("%s (%s -> %s) changed %s in the tree of the earlier request %s.%s -> %s\n%s", how, target, c.New, path, c.Prior.Class, c.Prior.Old, c.Prior.New, firstDiff("", priorFiles[path], now[path]))
+			}
+		}
 	}
-	sort.Strings(paths)
-	for _, path := range paths {
+	for _, path := range sortedKeys(orig) {
 		got, err := os.ReadFile(filepath.Join(proj, filepath.FromSlash(path)))
 		if err != nil {
 			return pbt.Fail("after %s: %s is gone: %v", how, path, err)
@@ -483,6 +592,54 @@ func check(c Case) pbt.Verdict {
 			v.Classes = append(v.Classes, n.label+"_name_with_non_ascii_letter")
 		}
 	}
+	// shapes of hand-written units and of the project generator
+	featureSeen := map[string]bool{}
+	for i, u := range c.Project.Units {
+		for _, ft := range u.Features {
+			if strings.HasPrefix(ft, "synth:") {
+				featureSeen[strings.ReplaceAll(ft, ":", "_")] = true
+			}
+			switch ft {
+			case "flat_unit", "flat_member", "long_comment", "long_literal", "wide_parameter_list", "unqualified_call_inherited", "unqualified_call_staticimport", "static_import_single", "static_import_on_demand", "braceless_body", "for_init_project_var":
+				featureSeen["unit_with_"+ft] = true
+			}
+		}
+		if strings.Contains(c.Project.Files[i].Text, "new Runnable() { public void run()") {
+			featureSeen["unit_with_anonymous_class"] = true
+		}
+		if fullName(u) == c.Class && len(u.Features) > 0 && u.Features[0] == "synth" {
+			featureSeen["subject_written_by_hand"] = true
+		}
+	}
+	for _, ft := range sortedKeys2(featureSeen) {
+		v.Classes = append(v.Classes, ft)
+	}
+	for _, x := range []struct {
+		on    bool
+		label string
+	}{
+		{firstLine, "site_on_the_first_line"}, {lastLine, "site_on_the_last_line_of_a_file_without_final_line_end"},
+		{farColumn, "site_beyond_column_4096"}, {hugeLine, "site_on_a_line_longer_than_65536_bytes"},
+		{namelessSite, "attributed_site_outside_every_method"}, {methodRefSite, "attributed_method_reference"},
+		{total >= 9, "sites_9_or_more"}, {total >= 17, "sites_17_or_more"}, {total >= 33, "sites_33_or_more"}, {total >= 65, "sites_65_or_more"},
+		{pkg == "", "default_package"},
+		{utf8.RuneCountInString(c.Old) == 1, "old_name_of_one_character"},
+		{utf8.RuneCountInString(c.Old) > 40, "old_name_longer_than_40"}, {utf8.RuneCountInString(c.Old) > 4096, "old_name_longer_than_4096"},
+		{isContextual(c.Old), "old_name_is_a_contextual_keyword"}, {isContextual(c.New), "new_name_is_a_contextual_keyword"},
+		{strings.HasPrefix(c.New, c.Old), "new_name_extends_the_old_one"}, {strings.HasPrefix(c.Old, c.New), "new_name_is_a_prefix_of_the_old_one"},
+		{strings.HasSuffix(c.New, c.Old) && c.New != c.Old+c.Old, "new_name_ends_with_the_old_one"}, {strings.HasSuffix(c.Old, c.New), "new_name_is_a_suffix_of_the_old_one"},
+		{strings.EqualFold(c.New, c.Old), "new_name_is_a_case_variant_of_the_old_one"},
+		{c.Conf == 1, "config_without_final_line_end"}, {c.Conf >= 2, "config_with_blank_lines"},
+		{c.CLI && (c.Args == 1 || c.Args == 2), "cli_long_options"}, {c.CLI && c.Args == 2, "cli_options_with_equals_sign"},
+		{c.CLI && c.Args == 3, "cli_options_in_the_other_order"}, {c.CLI && c.Args == 4, "cli_short_options_with_attached_value"},
+		{c.CLI && c.Args == 5, "cli_relative_paths"},
+		{c.Reverse, "model_in_reverse_order"}, {c.Prior != nil, "after_an_earlier_request_in_the_same_process"},
+		{c.Prior != nil && (c.Prior.Class != c.Class || c.Prior.Old != c.Old), "after_an_earlier_request_for_another_method"},
+	} {
+		if x.on {
+			v.Classes = append(v.Classes, x.label)
+		}
+	}
 	if strings.ContainsAny(c.New, "0123456789") {
 		v.Classes = append(v.Classes, "new_name_with_digit")
 	}
@@ -522,6 +679,34 @@ func project(model []core_domain.CodeDataStruct, proj string, oldName, newName s
 	return strings.Join(out, "\n")
 }
 
+func sortedKeys2(m map[string]bool) []string {
+	var keys []string
+	for k := range m {
+		keys = append(keys, k)
+	}
+	sort.Strings(keys)
+	return keys
+}
+
+func sortedKeys(m map[string]string) []string {
+	var keys []string
+	for k := range m {
+		keys = append(keys, k)
+	}
+	sort.Strings(keys)
+	return keys
+}
+
+// readTree reads the files named by the keys of like below root ("" for a file that is gone).
+func readTree(root string, like map[string]string) map[string]string {
+	out := map[string]string{}
+	for path := range like {
+		raw, _ := os.ReadFile(filepath.Join(root, filepath.FromSlash(path)))
+		out[path] = string(raw)
+	}
+	return out
+}
+
 func firstDiff(orig, want, got string) string {
 	wl, gl := strings.Split(want, "\n"), strings.Split(got, "\n")
 	ol := strings.Split(orig, "\n")
@@ -547,13 +732,16 @@ func firstDiff(orig, want, got string) string {
 func init() {
 	pbt.SetProperty("C05")
 	jgen.SetExcluded(pbt.Excluded)
-	pbt.Describe("rapid-generated conventional Java projects (jgen, 1-4 units with method bodies, multi-byte literals and comments, several invocations per line, the method's name also inside string literals and comments as decoys; a calling class of another package reaches the renamed method's class through a single-type import, through a wildcard import of its package only, or through both, among unrelated wildcard imports; subclasses call methods their project superclass declares as super.m(...); method, variable and class names drawn from the whole identifier alphabet: besides ASCII letters and digits also `_`, `$` (not in class names) and letters outside ASCII (run4$impl, _calc7, m12größe, 値load3, class Order5_v, Item7É), packages with digits and underscores (com.acme2.v1_0)) and a rename request for a class method whose name is unique in its class, preferring methods with call sites, and among those methods called from another file; new names of length 1, the same length (in characters), 20-40 characters, or 1-13 characters, made of letters with up to three characters replaced by `_`, `$`, a digit or a letter outside ASCII (Latin-1, Greek, Cyrillic, CJK). Oracle: the allowed edits are the declaration identifier and the callee identifier of every call the pre-rename model attributes to the method (positions taken from the model, cross-checked against the printer's table: the declaration and every generated call site with an implicit / field / parameter / local receiver of that class must be among them); all edits are applied to the original text at once (in characters) and every file of the project must byte-equal the result; then the rewritten tree is re-analysed and must give the original model with the method and those calls renamed and start columns shifted. Non-trivial = at least 2 edited tokens and (two on one line, or multi-byte text left of a token, or a length change); distinct = hash of the case.",
-		"rename subjects are class methods (interface method positions start at the first token of the declaration, DESIGN.md appendix B) whose name is not overloaded in the class",
-		"the new name is fresh in the project (it is compared with every identifier written in the project's files and lengthened when it occurs) and is not a keyword",
+	pbt.Describe("rapid-generated conventional Java projects (jgen, 1-4 units with method bodies, multi-byte literals and comments, several invocations per line, the method's name also inside string literals and comments as decoys; a calling class of another package reaches the renamed method's class through a single-type import, through a wildcard import of its package only, or through both, among unrelated wildcard imports; subclasses call methods their project superclass declares as super.m(...) or unqualified, classes call static methods of others through `import static`, written next to the imports as a further occurrence of the name that is no call; anonymous classes as arguments; loop and branch bodies without braces; method, variable and class names drawn from the whole identifier alphabet: besides ASCII letters and digits also `_`, `$` (not in class names) and letters outside ASCII (run4$impl, _calc7, m12größe, 値load3, class Order5_v, Item7É), names of 41-300 and rarely 4100-5200 characters, packages with digits and underscores (com.acme2.v1_0); physical lines of any length: a member or a whole unit on one line (sites on the first and on the last line of a file with or without final line end), block comments and literals of 500-6000 and rarely 60000-70000 bytes on the lines of declarations, parameter lists of 20-120 parameters; some files with CRLF line ends) and a rename request for a class method whose name is unique in its class, preferring methods with call sites, and among those methods called from another file. One subject in four (and every subject of a project without such a method) is declared by a unit written by hand: in a package of the project, a fresh package or the default package; named plainly, with one character (q, $, é, 値), with a contextual keyword (open, with, to, record, module, ...), with 41-5200 characters or with `_` `$` and letters outside ASCII; its name separated from the return type by blanks, a tab, a comment holding the name, a comment of 4200-70000 bytes or a line end (the name then begins its line, also at column 0) and from the parenthesis by nothing, blanks, a comment or a line end; static or not, generic or not, annotated (the name inside the annotation's literal); declared before or after its users; called in a field initializer, an initializer block, its own body and a user method with 0-4 lines of 1-3 statements (rarely 12-68 sites in one file) of the forms m(1), this.m(null), m (2) / m/* m( */(2) / m<line end>(2), C.m(4), m(m(5)), a literal holding the name left and right of the site, the method references C::m and this::m, a call behind a comment of 4200-70000 bytes, new C().m(7), a site behind a multi-byte literal, a lambda body, this.<line end>m(6); up to three further methods of the class whose names resemble the subject's (mX, m_, m2, xm, mm, m without its last or first character, M.., the upper-case form) declared and called on the lines of genuine sites; optionally a second top-level class in the same file that calls the method on a parameter (its node of the model carries neither package nor imports); optionally a second hand-written file that calls the method on a parameter, a field and a local variable (also zp<line end>.m(5), the method reference zp::m, C.m(4)), from the same or another package. One case in five adds a class that resembles the subject's class and declares and calls a method of the subject's name: the same simple name in another package (pkg.alt, pkgx, xpkg, alt.pkg), or the subject's class name extended (CX, C2, C_, CImpl) in its package. New names of length 1, the same length (in characters), 20-40 characters, or 1-13 characters, made of letters with up to three characters replaced by `_`, `$`, a digit or a letter outside ASCII (Latin-1, Greek, Cyrillic, CJK); one in four resembles the old name (an extension, a prefix, a suffix, a case variant of it) or is a contextual keyword. The request stands in the config file with or without final line end, alone or among blank lines; the model is handed over as analysed or in reverse order; one case in six runs after another request (for the same or another method) has been carried out in the same process on another copy of the project. Oracle: the allowed edits are the declaration identifier and the callee identifier of every call the pre-rename model attributes to the method (positions taken from the model, cross-checked against the printer's table: the declaration and every generated call site with an implicit / field / parameter / local receiver of that class must be among them); all edits are applied to the original text at once (in characters) and every file of the project must byte-equal the result; the files of the tree renamed earlier must not change; then the rewritten tree is re-analysed and must give the original model with the method and those calls renamed and start columns shifted. Non-trivial = at least 2 edited tokens and (two on one line, or multi-byte text left of a token, or a length change); distinct = hash of the case.",
+		"rename subjects are class methods (interface method positions start at the first token of the declaration, DESIGN.md appendix B) whose name is not overloaded in the class; top-level classes only (nested types are outside the generated projects, as for C01)",
+		"the new name is fresh in the project (it is compared with every identifier written in the project's files and lengthened when it occurs) and is not a keyword; contextual keywords of the shipped grammar (open, with, to, record, module, exports, opens, uses, provides, requires, transitive, sealed, permits) are ordinary method names",
 		"lengths and columns are counted in characters (the model's columns are the lexer's), so `same length` and the shift of columns right of an edit refer to characters, not bytes",
-		"simple class names are unique in the project, so a class reached through a wildcard import is still denoted by its plain name",
-		"super.m(...) calls are not required to be attributed to the superclass's method (the statement's edits are the calls the model attributes); when the model does attribute them they must be renamed like any other call",
-		"one case in fifteen goes through the sub-process `coca refactor -R conf -d deps.json` with the model serialised to deps.json")
+		"a plain class name denotes one class: a second class of the subject's simple name (in another package) is added only when every other file that calls the subject imports its class by a single-type import (the model resolves a plain name that has no such import by its simple name alone, which is C02's subject)",
+		"super.m(...) calls, unqualified calls of inherited or statically imported methods, this.m(), C.m(), new C().m(), method references and calls outside every method are not required to be attributed to the method (the statement's edits are the calls the model attributes); when the model does attribute them they must be renamed like any other call, otherwise they must stay as they are",
+		"one request per config file, written as the tool's own examples write it (`old -> new`, one blank on either side, LF line ends in the config); a config with several requests, CR LF line ends or other text is outside (the statement speaks of one request and does not say how the lines of a config combine)",
+		"files are UTF-8 without byte order mark (javac rejects a mark); line ends are LF or CR LF",
+		"an earlier request is carried out through the API on a separate copy of the project; between the two requests the analysis passes are reset (their state is C07's subject), the rename package is not",
+		"one case in fifteen goes through the sub-process `coca refactor` with the model serialised to deps.json; the options are spelled -R f -d f, --rename f --dependence f, --rename=f --dependence=f, -d f -R f, -Rf -df, or with paths relative to the working directory")
 	pbt.Register("rename", 400, 2000, gen, check)
 }
 
